@@ -122,6 +122,7 @@ type Contract struct {
 	CbInvs          map[string][]*Clause // site NAME: callback-invariant ... (kept by the callbacks passed to NAME)
 	SiteAssumes     map[string][]*Clause // site NAME: assume ... (about the result of the call; part of a declared assumption)
 	CallsOnly       []string             // calls-only T1, T2: the only functions under contract that may be called (directly or from inlined helpers)
+	PerVariant      string               // per-variant PREFIX: verified for the function PREFIX<X> of every node variant X, under X's conformance setup
 	Delegates       string               // delegates TARGET on EXPR: the body is one call of TARGET, arguments and results passed through
 	DelegateOn      string
 	DelegateFn      string   // synthetic function returning the expected receiver
@@ -308,6 +309,9 @@ func parseContractFile(path, pkgDir string, src []byte) (*ContractFile, error) {
 			}
 		case "note":
 			cur.Notes = append(cur.Notes, rest)
+		case "per-variant":
+			// per-variant PREFIX: the contract is verified for PREFIX<X> of every node variant X (interface conformance setup)
+			cur.PerVariant = strings.TrimSpace(rest)
 		case "calls-only":
 			for _, it := range splitTop(rest, ',') {
 				if strings.TrimSpace(it) != "" {
